@@ -163,3 +163,105 @@ Proof.
   intros S f a plen H. destruct (lpm S f a plen) as [[l k]|] eqn:R; auto.
   destruct (lpm_some _ _ _ _ _ _ R) as [t [Ht [Et _]]]. rewrite (H t Ht) in Et. discriminate.
 Qed.
+
+(* ---------------------------------------------------------------- masking an address *)
+From DnsV Require Import Model.Rearranger.
+
+Lemma clean_mask_le : forall a l, clean_mask a l <= a.
+Proof.
+  intros a l. unfold clean_mask. pose proof (blk_size_pos l).
+  rewrite N.mul_comm. apply N.mul_div_le. lia.
+Qed.
+
+Lemma clean_mask_masked : forall a l, masked (clean_mask a l) l.
+Proof.
+  intros a l. unfold masked, clean_mask. apply N.mod_mul. pose proof (blk_size_pos l). lia.
+Qed.
+
+Lemma clean_mask_div : forall a l, clean_mask a l / blk_size l = a / blk_size l.
+Proof.
+  intros a l. unfold clean_mask. apply N.div_mul. pose proof (blk_size_pos l). lia.
+Qed.
+
+Lemma clean_mask_id : forall a l, masked a l -> clean_mask a l = a.
+Proof.
+  unfold masked, clean_mask. intros a l H. pose proof (blk_size_pos l) as P.
+  pose proof (N.div_mod a (blk_size l)) as D. rewrite H in D. rewrite N.mul_comm. lia.
+Qed.
+
+(* masking to k1 then to k2 <= k1 is masking to k2 *)
+Lemma clean_mask_twice : forall a k1 k2, k2 <= k1 -> k1 <= 128 ->
+  clean_mask (clean_mask a k1) k2 = clean_mask a k2.
+Proof.
+  intros a k1 k2 H1 H2. unfold clean_mask at 1 3. f_equal.
+  rewrite (div_coarser (clean_mask a k1) k2 k1 H1 H2).
+  rewrite clean_mask_div. symmetry. apply div_coarser; auto.
+Qed.
+
+(* a block with a clean network address contains a iff a masked to its length is that address *)
+Lemma contains_clean : forall s a, masked (s_addr s) (s_len s) ->
+  (contains s a = true <-> clean_mask a (s_len s) = s_addr s).
+Proof.
+  intros s a Hm. unfold contains. rewrite N.eqb_eq. split.
+  - intro E. unfold clean_mask. rewrite E. fold (clean_mask (s_addr s) (s_len s)).
+    apply clean_mask_id; auto.
+  - intro E. rewrite <- E. symmetry. apply clean_mask_div.
+Qed.
+
+Lemma contains_masked_client : forall s a plen, s_len s <= plen -> plen <= 128 ->
+  contains s (clean_mask a plen) = contains s a.
+Proof.
+  intros s a plen H1 H2. unfold contains.
+  rewrite (div_coarser (clean_mask a plen) _ _ H1 H2). rewrite clean_mask_div.
+  rewrite <- (div_coarser a _ _ H1 H2). reflexivity.
+Qed.
+
+(* ---------------------------------------------------------------- the v4-mapped block *)
+
+Lemma blk_size_96 : blk_size 96 = 2 ^ 32. Proof. reflexivity. Qed.
+Lemma blk_size_95 : blk_size 95 = 2 ^ 33. Proof. reflexivity. Qed.
+
+Lemma is_v4_iff : forall a, is_v4 a = true <-> first_v4 <= a /\ a < after_v4.
+Proof. intro a. unfold is_v4. rewrite Bool.andb_true_iff, N.leb_le, N.ltb_lt. tauto. Qed.
+
+(* the v4-mapped range is the block (first_v4, 96) *)
+Lemma is_v4_block : forall a, is_v4 a = true <-> a / blk_size 96 = first_v4 / blk_size 96.
+Proof.
+  intro a. rewrite is_v4_iff.
+  pose proof (contains_iff (mkSubnet first_v4 96 (0, 0)) a) as H. unfold contains in H.
+  cbn [s_addr s_len] in H. rewrite N.eqb_eq in H.
+  assert (M : masked first_v4 96) by reflexivity.
+  specialize (H M). rewrite H.
+  assert (E : first_v4 + blk_size 96 = after_v4) by reflexivity. rewrite E. tauto.
+Qed.
+
+Lemma is_v4_clean_ge : forall a l, 96 <= l -> l <= 128 -> is_v4 (clean_mask a l) = is_v4 a.
+Proof.
+  intros a l H1 H2. apply Bool.eq_true_iff_eq. rewrite !is_v4_block.
+  rewrite (div_coarser (clean_mask a l) 96 l H1 H2), clean_mask_div, <- (div_coarser a 96 l H1 H2). tauto.
+Qed.
+
+Lemma masked_lt96_not_v4 : forall x l, l < 96 -> masked x l -> is_v4 x = false.
+Proof.
+  intros x l H Hm. assert (M : masked x 95) by (apply (masked_coarser x l 95); [lia | lia | exact Hm]).
+  unfold masked in M. rewrite blk_size_95 in M.
+  destruct (is_v4 x) eqn:E; auto. apply is_v4_iff in E. unfold first_v4, after_v4 in E.
+  pose proof (N.div_mod x (2 ^ 33)) as D. rewrite M in D.
+  assert (D' : x = 2 ^ 33 * (x / 2 ^ 33)) by (rewrite D at 1; [lia | discriminate]).
+  change (2 ^ 33) with 8589934592 in *. change (2 ^ 32) with 4294967296 in *. change (2 ^ 48) with 281474976710656 in *.
+  lia.
+Qed.
+
+(* a masked subnet of the v4 family lies in the v4-mapped range, and only those do *)
+Lemma v4_addr_len : forall s, masked (s_addr s) (s_len s) -> is_v4 (s_addr s) = true -> 96 <= s_len s.
+Proof.
+  intros s Hm Hv. destruct (N.lt_ge_cases (s_len s) 96) as [L|]; auto.
+  rewrite (masked_lt96_not_v4 _ _ L Hm) in Hv. discriminate.
+Qed.
+
+Lemma sfam_masked : forall s, masked (s_addr s) (s_len s) ->
+  sfam s = if is_v4 (s_addr s) then V4 else V6.
+Proof.
+  intros s Hm. unfold sfam. destruct (is_v4 (s_addr s)) eqn:E; auto.
+  pose proof (v4_addr_len s Hm E) as L. apply N.leb_le in L. rewrite L. reflexivity.
+Qed.
